@@ -258,7 +258,8 @@ Example C18_each_variable_example :
 Proof.
   cbv zeta. repeat split.
   - exact (C18_each_variable_first (fld_input "a" 0%R 10%R false 0%R) 3 ltac:(Lia.lia)).
-  - rewrite (grid_value_R (fld_input "a" 0%R 10%R false 0%R) 3 1 ltac:(Lia.lia)). cbn. Lra.lra.
+  - pose proof (grid_value_R (fld_input "a" 0%R 10%R false 0%R) 3 1 ltac:(Lia.lia)) as H.
+    change (3 - 1) with 2 in H. rewrite H. cbn. Lra.lra.
   - exact (C18_each_variable_last (fld_input "a" 0%R 10%R false 0%R) 3 ltac:(Lia.lia)).
 Qed.
 Print Assumptions C18_each_variable_example.
